@@ -17,6 +17,7 @@ import XmlDiffModel.Model.Api
 import XmlDiffModel.Model.Blank
 import XmlDiffModel.Model.Placeholder
 import XmlDiffModel.Model.XmlFormat
+import XmlDiffModel.Model.Dmp
 import Std.Data.HashMap
 open XmlDiffModel
 
@@ -459,6 +460,33 @@ def doXmlFmt (args : List String) : String :=
     | _, _, _, _ => "bad-op"
   | _ => "bad-op"
 
+def encDiff (d : Dmp.Diff) : String :=
+  ",".intercalate (d.map fun p =>
+    (match p.1 with | .del => "d" | .ins => "i" | .eq => "e") ++ ":" ++ encStr (some p.2))
+
+/-- dmp <text1> <text2> <bisect table: t1:t2:x:y entries (y = n for no split)>:
+answers `diff_main` and `diff_cleanupSemantic` of it -/
+def doDmp (args : List String) : String :=
+  match args with
+  | [a, b, tbl] =>
+    match decStr a, decStr b with
+    | some (some t1), some (some t2) =>
+      let entries : List ((Str × Str) × Option (Nat × Nat)) := ((tbl.splitOn " ").filter (· ≠ "")).filterMap fun e =>
+        match e.splitOn ":" with
+        | [x1, x2, xs, ys] =>
+          let k := (decStr! x1, decStr! x2)
+          match xs.toNat?, ys.toNat? with
+          | some x, some y => some (k, some (x, y))
+          | _, _ => some (k, none)
+        | _ => none
+      let m : Std.HashMap (Str × Str) (Option (Nat × Nat)) := Std.HashMap.ofList entries
+      -- an unrecorded request answers an impossible split so that it shows up as a disagreement
+      let bis : Dmp.Bisect := fun u v => m.getD (u, v) (some (10 ^ 9, 10 ^ 9))
+      let (d, c) := Dmp.diffAndClean bis t1 t2
+      "ok " ++ encDiff d ++ " | " ++ encDiff c
+    | _, _ => "bad-op"
+  | _ => "bad-op"
+
 def doOrders (args : List String) : String :=
   match args with
   | [ts] => match decTree ts with
@@ -484,6 +512,7 @@ def handle (line : String) : String :=
   | "plan" :: args => doPlan args
   | "ph" :: args => doPh args
   | "xmlfmt" :: args => doXmlFmt args
+  | "dmp" :: args => doDmp args
   | "blank" :: args => doBlank args
   | "parse" :: args => doParse args
   | "json" :: args => doJson args
